@@ -1305,7 +1305,8 @@ def chunk_reduce(
             new_dims_shape = tuple()
         if empty:
             # (the all-fill result has the new dimensions too)
-            result = np.full(shape=new_dims_shape + final_array_shape, fill_value=fv)
+            # (and the dtype of the sibling arms: an int64 / float64 placeholder next to uint64 intermediates promotes the lot to float64)
+            result = np.full(shape=new_dims_shape + final_array_shape, fill_value=fv, dtype=dt)
         elif is_nanlen(reduction) and is_nanlen(previous_reduction):
             result = results["intermediates"][-1]
         else:
